@@ -277,7 +277,7 @@ func c20FactoryInit(s *scen, nonce uint64) ([]byte, common.Address) {
 	return c20Pad(s.k[1].Addr, nonce, a.Bytes())
 }
 
-var c20Factory common.Address // set by c20DeployFactory for the scenario being run
+var c20Factory common.Address    // set by c20DeployFactory for the scenario being run
 var c20Children []common.Address // predicted children of the factory calls of the scenario being run
 
 func c20DeployFactory(s *scen) error {
